@@ -778,6 +778,45 @@ def run_unary(sh, r, w, total):
                 sh.sample({"expr": text, "observed": obs, "expected": spec[1][0]}, cap=4)
 
 
+def run_unary_xlevel(sh, r, w, total):
+    """floor / ceil / round / int are functions of the exact mathematical value: the same value written as a rational,
+    as the (exactly representable) float, as an integral rational or int must give the same result -- in particular the
+    tie rule of `round`, whatever it is, cannot depend on the level, and round(-x) == -round(x) at ties follows from
+    either symmetric rule the levels share.  Both sides are computed by the interpreter."""
+    done = 0
+    while done < total:
+        batch = []
+        for _ in range(min(250, total - done)):
+            j = r.choice([0, 1, 1, 1, 2, 3])
+            k = r.choice([r.randint(-40, 40), 2 * r.randint(-20, 20) + 1, (2 * r.randint(-8, 8) + 1) * (1 << max(j - 1, 0))])
+            q = Fraction(k, 1 << j)
+            fn = r.choice(["floor", "ceil", "round", "round", "round", "int"])
+            qs = "(%s/%d)" % (lit(k), 1 << j)
+            fs = "(%r)" % float(q) if q >= 0 else "(0.0 - %r)" % float(-q)
+            batch.append((q, fn, qs, fs, "[%s, %s]" % (TRY % ("%s(%s)" % (fn, qs)), TRY % ("%s(%s)" % (fn, fs)))))
+        done += len(batch)
+        evs = core.eval_all(w, [c[4] for c in batch], jid="c07x")
+        for (q, fn, qs, fs, stmt), ev in zip(batch, evs):
+            text = "%s(%s) vs %s(%s)" % (fn, qs, fn, fs)
+            if bad_outcome(sh, ev, text):
+                continue
+            a, b = ev["v"]["l"]
+            sh.seen(text, True)
+            tie = q.denominator == 2
+            sh.count("xlevel:%s%s" % (fn, "|tie" if tie and fn == "round" else ""))
+            try:
+                va = None if a == MARK else Fraction(decode_num(a))
+                vb = None if b == MARK else Fraction(decode_num(b))
+            except (ValueError, TypeError, OverflowError):
+                sh.inconc("xlevel-decode", text[:200])
+                continue
+            if va != vb:
+                viol(sh, "C07|%s|rational-vs-float|level-dependent%s" % (fn, "-tie" if tie else ""),
+                     "%s(%s) = %s but %s(%s) = %s for the same value %s" % (fn, qs, "error" if a == MARK else norm(a), fn, fs,
+                                                                          "error" if b == MARK else norm(b), q),
+                     {"job": {"kind": "eval", "stmts": [stmt]}, "expected": "equal results"})
+
+
 # ---------------------------------------------------------------- vectors
 
 VOPS = ["+", "-", "*", "/", "%", "//", "%%", "^"]
@@ -898,6 +937,7 @@ def shard(ctx, si, n):
         run_pairs(sh, r, w, share(ctx.plan["pairs"]))
         run_cmeta(sh, r, w, share(ctx.plan["cmeta"]))
         run_unary(sh, r, w, share(ctx.plan["unary"]))
+        run_unary_xlevel(sh, r, w, max(250, share(ctx.plan["unary"]) // 8))
         run_vectors(sh, r, w, share(ctx.plan["vectors"]))
     finally:
         w.close()
